@@ -126,6 +126,36 @@ func C20(r *explore.Run) {
 		c.OutcomeStr(text)
 		c.Nontrivial(explore.Hash(text))
 	})
+	// many lines: the width of the line number in the excerpt changes at 10, 100, 1000, 10000
+	r.Explore(explore.Options{Space: "texts with many lines", MaxDev: -1, SplitLen: 1,
+		Bound: "n newlines + 'ab' + LF + 'c' for every n in 0..1100 and n in {9998..10001}, positions in the last three lines"}, func(c *explore.Ctx) {
+		n := c.ChooseFree(1105)
+		if n > 1100 {
+			n = 9998 + (n - 1101)
+		}
+		text := strings.Repeat("\n", n) + "ab\nc"
+		c.Input(fmt.Sprintf("%d newlines + ab LF c", n))
+		lo := len(text) - 6
+		if lo < 0 {
+			lo = 0
+		}
+		for pos := lo; pos <= len(text); pos++ {
+			for end := pos; end <= len(text); end++ {
+				for sig, d := range checkFilePos(text, pos, end) {
+					c.Violation(sig, fmt.Sprintf("%d newlines + \"ab\\nc\" pos=%d end=%d", n, pos, end), d)
+				}
+				c.Count("pos_end_pairs", 1)
+			}
+		}
+		// and the error of a real parse on the last line
+		for _, e := range collectErrors(strings.Repeat("\n", n) + "SELECT") {
+			for sig, d := range checkErrorPos(strings.Repeat("\n", n)+"SELECT", e) {
+				c.Violation(sig, fmt.Sprintf("%d newlines + SELECT", n), d)
+			}
+		}
+		c.OutcomeStr(fmt.Sprint(n))
+		c.Nontrivial(explore.Hash(fmt.Sprint(n)))
+	})
 	r.Explore(explore.Options{Space: "errors of token strings", MaxDev: -1,
 		Bound: fmt.Sprintf("all sequences of <=%d of %d tokens joined by a blank, through ParseStatements/ParseExpr/ParseDDL/SplitRawStatements/Lexer", n, len(errToks))}, func(c *explore.Ctx) {
 		seq := spaces.Seq(c, len(errToks), n)
